@@ -325,7 +325,7 @@ fn gen_payload(r: &mut Rng) -> Vec<String> {
         7 => one(format!("{{\"type\":\"response.output_item.done\",\"output_index\":{},\"item\":{{\"type\":\"function_call\",\"id\":\"i1\",\"call_id\":\"c1\",\"name\":\"ls\",\"arguments\":\"{{}}\"}}}}", r.below(3))),
         8 => vec!["héllo € 😀".to_string(), "second line".to_string()],
         9 => one(gen_scalar(r)),
-        10 => one(format!("{{\"type\":\"{OTD}\",\"delta\":{}}}", r.pick(&["0", "null", "{\"s\":\"x\"}", "[\"x\"]", "true", "1.0"][..]))),
+        10 => one(format!("{{\"type\":\"{OTD}\",{}\"delta\":{}}}", r.pick(&["", "\"text\":\"T\",", "\"output_text\":\"O\","][..]), r.pick(&["0", "null", "{\"s\":\"x\"}", "[\"x\"]", "true", "1.0"][..]))),
         11 => vec!["{\"type\":\"response.completed\",".to_string(), "".to_string(), "\"sequence_number\":2}".to_string()],
         // the delta rules: key order, duplicate keys (the last one counts), type missing / not a string / nested / in an array
         12 => one(format!("{{\"delta\":{},\"type\":\"{OTD}\"}}", r.pick(&STRS[..]))),
@@ -336,6 +336,7 @@ fn gen_payload(r: &mut Rng) -> Vec<String> {
                     "{\"type\":\"response.output_text.delta\",\"type\":\"response.created\",\"delta\":\"no\"}",
                     "{\"type\":\"response.created\",\"delta\":\"yes\",\"type\":\"response.output_text.delta\"}",
                     "{\"delta\":\"typeless\"}",
+                    "{\"type\":\"response.output_text.delta\",\"text\":\"no delta member\"}",
                     "{\"type\":7,\"delta\":\"num type\"}",
                     "{\"type\":null,\"delta\":\"null type\"}",
                     "{\"x\":{\"type\":\"response.output_text.delta\",\"delta\":\"nested\"}}",
@@ -357,9 +358,11 @@ fn gen_payload(r: &mut Rng) -> Vec<String> {
         // nesting around rip_kernel::MAX_PAYLOAD_NESTING (125) and serde_json's limit (127 parse, 128 refuse)
         21 => {
             let n = *r.pick(&[124usize, 125, 126, 127, 128, 129][..]);
-            one(match r.below(3) {
+            one(match r.below(5) {
                 0 => nested("[", "]", "", n),
                 1 => nested("{\"a\":", "}", "1", n),
+                2 => nested("[ ", " ]", "1.0", n),
+                3 => nested("{\"b\":0, \"a\":", "}", "[1e2]", n - 1),
                 _ => format!("{{\"type\":\"{OTD}\",\"delta\":\"deep\",\"x\":{}}}", nested("[", "]", "0", n - 1)),
             })
         }
